@@ -3,6 +3,7 @@ package main
 // C11 - issuance with fixed blinds is reproducible and the token ignores the blind.
 
 import (
+	"golang.org/x/tools/go/ssa"
 	"strings"
 )
 
@@ -155,6 +156,31 @@ func c11(p *Prog, r *Report) {
 				for _, db := range sitesIn(fn, func(n string) bool { return strings.HasSuffix(n, "oprf.client).DeterministicBlind") }) {
 					if arg(s.callTerm(db), 2).String() == recv.Args[0].String() && s.factsHaveCallSuccessAny(db, site) {
 						found = true
+					}
+				}
+			}
+		}
+		// or: blind := NewScalar(); blind.UnmarshalBinary(encodedBlinds[i]); blinds[i] = blind
+		for _, site := range sitesIn(fn, func(n string) bool { return n == "(github.com/cloudflare/circl/group.Scalar).UnmarshalBinary" }) {
+			cc := site.Common()
+			src := s.Of(cc.Args[0])
+			if src.Op != "index" || src.Args[0].String() != "param:5" {
+				continue
+			}
+			for _, b := range fn.Blocks {
+				for _, in := range b.Instrs {
+					st, ok := in.(*ssa.Store)
+					if !ok || st.Val != cc.Value {
+						continue
+					}
+					ia, ok := st.Addr.(*ssa.IndexAddr)
+					if !ok || s.Of(ia.Index).String() != src.Args[1].String() || !strings.HasPrefix(s.Of(ia.X).String(), "make(len(param:2)") {
+						continue
+					}
+					for _, db := range sitesIn(fn, func(n string) bool { return strings.HasSuffix(n, "oprf.client).DeterministicBlind") }) {
+						if arg(s.callTerm(db), 2).String() == s.Of(ia.X).String() {
+							found = true
+						}
 					}
 				}
 			}
